@@ -2,6 +2,7 @@ import BornoModel.Cli
 import BornoModel.Lemmas.ParseSoundStmt
 import BornoModel.Lemmas.ParseCompleteStmt
 import BornoModel.Lemmas.ParseWf
+import BornoModel.Lemmas.ParseSafe
 import BornoModel.Props.C09
 /-! # C08 — the front end is total, accepts exactly the documented language, runs nothing else -/
 namespace Borno.Props.C08
@@ -155,6 +156,14 @@ example :
           .expr (.call (.ident ['f'] 1) 1 [n 1, n 2])] = true ∧
     wfSs [.ifS x (.ifS x (.print x) none) (some (.print x))] = false ∧
     wfSs [.ifS x (.ifS x (.print x) (some (.print x))) none] = true := by decide
+
+/-- totality of the parser half: on the token list of any text `Parse` never indexes past the end
+    (no panic outcome, whatever the fuel), and when it gives up it has reported a diagnostic -/
+theorem parsing_never_panics (lm : Char → Bool) (hlm : lm '\n' = false) (src : List Char) (toks : List Token) (ds : List Diag)
+    (hs : Lexer.scan lm src = some (toks, ds)) (f : Nat) :
+    program f toks ≠ .abn .panic ∧ ∀ pd, program f toks = .err pd → pd ≠ [] := by
+  obtain ⟨body, hb, hne⟩ := C09.single_eof_last lm hlm src toks ds hs
+  exact ⟨parse_no_panic f toks ⟨body, _, hb, rfl, hne⟩, program_err_nonempty f toks⟩
 
 /-- totality of the lexer half of the front end: every text is tokenised (see C09.scan_total) -/
 theorem lexing_total (lm : Char → Bool) (hlm : lm '\n' = false) (src : List Char) :
